@@ -10,6 +10,7 @@
 package evaluator
 
 import (
+	"strconv"
 	"strings"
 	"sync"
 	"time"
@@ -122,7 +123,7 @@ func (module *CachingEvaluator) getConsumerStatus(request *protocol.EvaluatorReq
 		zap.Bool("showall", request.ShowAll),
 	)
 
-	result, err := module.cache.Query(request.Cluster + " " + request.Group)
+	result, err := module.cache.Query(cacheKey(request.Cluster, request.Group))
 	if err != nil {
 		requestLogger.Info(err.Error())
 
@@ -170,15 +171,33 @@ func (module *CachingEvaluator) getConsumerStatus(request *protocol.EvaluatorReq
 	}
 }
 
+// cacheKey returns the cache key for a cluster and consumer group. The key starts with the length of the cluster name,
+// so that it can be taken apart again unambiguously whatever the two names contain: with a plain "cluster group" key,
+// the cluster "a b" with the group "c" and the cluster "a" with the group "b c" would share a cache entry
+func cacheKey(cluster, consumer string) string {
+	return strconv.Itoa(len(cluster)) + " " + cluster + " " + consumer
+}
+
+// splitCacheKey is the inverse of cacheKey. The boolean is false if the string provided is not a key made by cacheKey
+func splitCacheKey(key string) (string, string, bool) {
+	parts := strings.SplitN(key, " ", 2)
+	if len(parts) != 2 {
+		return "", "", false
+	}
+	clusterLen, err := strconv.Atoi(parts[0])
+	if err != nil || clusterLen < 0 || clusterLen >= len(parts[1]) || parts[1][clusterLen] != ' ' {
+		return "", "", false
+	}
+	return parts[1][:clusterLen], parts[1][clusterLen+1:], true
+}
+
 func (module *CachingEvaluator) evaluateConsumerStatus(clusterAndConsumer string) (interface{}, error) {
 	// First off, we need to separate the cluster and consumer values from the string provided
-	parts := strings.SplitN(clusterAndConsumer, " ", 2)
-	if len(parts) != 2 {
+	cluster, consumer, ok := splitCacheKey(clusterAndConsumer)
+	if !ok {
 		module.Log.Error("query with bad clusterAndConsumer", zap.String("arg", clusterAndConsumer))
 		return nil, &cacheError{StatusCode: 500, Reason: "bad request"}
 	}
-	cluster := parts[0]
-	consumer := parts[1]
 
 	// Fetch all the consumer offset and lag information from storage
 	storageRequest := &protocol.StorageRequest{
